@@ -491,6 +491,25 @@ func qrencStep(c *Ctx, suite, cmd, args string, m *encoder.ByteMatrix, f func() 
 }
 
 func qrencMatrixStages(c *Ctx) {
+	// FuncOK v — the per-version hypothesis of the C07Mirror theorems for versions 11..40 (kernel-checked for 1..10):
+	// the model's function-pattern loops with position tags leave exactly the standard's function modules; evaluated
+	// here by the compiled driver for every version.  The real code is tied to the same loops just below: the matrix
+	// after embedBasicPatterns / embedTypeInfo / maybeEmbedVersionInfo of EVERY version is compared with the model.
+	for v := 1; v <= 40; v++ {
+		c.Cmp("qrenc-funcok", fmt.Sprintf("c07m funcok v=%d", v), "1")
+	}
+	c.Parallel(40, 16, func(i int, r *Rng) {
+		v := i + 1
+		ver := c07Version(v)
+		dim := ver.GetDimensionForVersion()
+		ec := c07Levels[r.Intn(4)]
+		mask := r.Intn(8)
+		m := qrencNewBM(r, dim, dim, 3)
+		qrencStep(c, "qrenc-embed", "basic", fmt.Sprintf("v=%d", v), m, func() error { return encoder.VerifEmbedBasicPatterns(ver, m) })
+		qrencStep(c, "qrenc-embed", "tinfo", fmt.Sprintf("ec=%s mask=%d", ec.String(), mask), m, func() error { return encoder.VerifEmbedTypeInfo(ec, mask, m) })
+		qrencStep(c, "qrenc-embed", "vinfo", fmt.Sprintf("v=%d", v), m, func() error { return encoder.VerifMaybeEmbedVersionInfo(ver, m) })
+		c.Note("qrenc:function-stage")
+	})
 	var versions []int
 	for v := 1; v <= 40; v++ {
 		if c.Thorough || v <= 10 || v%7 == int(c.Seed%7) || v == 40 || v == 32 {
